@@ -1,4 +1,4 @@
-import MosnVerif.Lemmas.FilterReply
+import MosnVerif.Lemmas.FilterSpec
 /-!
 # C14 — stream filters run in order, and a denied request is never forwarded (property theorems only)
 
@@ -9,7 +9,7 @@ stream's worker after `n` iterations of the `receive` loop; all statements hold 
 run), in particular for the finished run `trace c`.
 -/
 namespace MosnVerif.Props.C14
-open MosnVerif.Gen.FilterPhase MosnVerif.Model.FilterChain MosnVerif.Model.FilterMachine
+open MosnVerif.Gen.FilterPhase MosnVerif.Model.FilterChain MosnVerif.Model.FilterMachine MosnVerif.Model.FilterSpec
 
 /-- **order**: in every receiver pass (one `RunReceiverFilter` call, recorded with its start cursor) the invoked filters
 have strictly increasing indices, none below the start cursor, and every one of them is a configured filter registered
@@ -46,11 +46,12 @@ theorem deny_not_forwarded (c : Cfg) (n : Nat) (p : RPhase) (st : Nat) (invs : L
 
 /-- **once (sender side)**: at every point of the run the response side of the trace (sender passes and downstream
 sender calls) is empty, or starts with ONE sender pass — from cursor 0, making exactly the invocations `sendRun`: filters
-0,1,2,… in order, each once, up to and including the first that does not continue — followed by no further sender pass:
-the sender filters run at most once per stream (= per response) and before anything is written downstream. -/
+0,1,2,… in order, each once, up to and including the first that does not continue — followed only by the downstream
+sender calls of one response (headers, ≤ 1 data, ≤ 1 trailers; no further sender pass): the sender filters run at most
+once per stream (= per response) and before anything is written downstream. -/
 theorem once_send (c : Cfg) (n : Nat) :
     backPart (run c n init).trace = [] ∨
-    ∃ rest, backPart (run c n init).trace = .spass 0 (sendRun c.send 0) :: rest ∧ ∀ e ∈ rest, isSpass e = false :=
+    ∃ rest, backPart (run c n init).trace = .spass 0 (sendRun c.send 0) :: rest ∧ replyShape rest = true :=
   Ginv_SpOK c _ (run_Ginv c n init (init_Ginv c))
 
 /-- … and `sendRun` invokes every sender filter exactly once, in configuration order, when they all continue -/
@@ -77,6 +78,17 @@ theorem single_reply_partial (c : Cfg) (ha : answeredIn (trace c)) (hnt : ¬ ter
     ∃ r code, replyOf (recvVerdicts (trace c)) (none, none) = (some r, code) ∧
       backPart (trace c) = .spass 0 (sendRun c.send 0) :: replyEvs r code := by
   exact single_reply_of c (final c) (run_Ginv c fuel init (init_Ginv c)) (final_halted c) ha hnt hno hex
+
+/-- **the executable predicate holds of the model** (safety part: order / once / resume in their token-list form,
+no receiver filter after the response side started, deny ⇒ not forwarded, sender-once) — at every point of every run.
+`specSafety` is the function `mosnmodel` evaluates on the IMPLEMENTATION's tokens of every generated case. -/
+theorem spec_safety_holds_on_model (c : Cfg) (n : Nat) : specSafety c (flat (run c n init).trace) = true :=
+  specSafety_run c n
+
+/-- **the whole executable predicate holds of the finished model run**, single_reply included, for every
+configuration the worker does not abandon (see `single_reply_partial`). -/
+theorem spec_holds_on_model (c : Cfg) (hex : (final c).exhausted = false) : spec c (flat (trace c)) = true :=
+  spec_final c hex
 
 /-! ### non-vacuity: concrete chains (the repaired defect, a re-match that resumes, a forwarded request) -/
 
